@@ -14,7 +14,7 @@ logging.disable(logging.CRITICAL)
 from insights.core import filters, dr, Parser
 from insights.core.context import HostContext
 from insights.core.plugins import datasource, parser, combiner
-from insights.core.spec_factory import RegistryPoint, SpecSet
+from insights.core.spec_factory import RegistryPoint, SpecSet, first_of
 from insights.cleaner.filters import AllowFilter
 
 
@@ -43,17 +43,20 @@ def world():
     def comb(p):
         return p
     comb.__name__ = "fcomb%d" % next(uid)
-    return {"impl1": I1.thing, "impl2": I2.thing, "spec": Specs.thing, "parser": P, "combiner": comb}
+    # a third implementation two levels deep: first_of([inner1, inner2]); look-ups also happen on the inner datasources
+    inner1, inner2 = mk(), mk()
+    I3 = type("FImpl%d" % next(uid), (Specs,), {"thing": first_of([inner1, inner2])})
+    return {"impl1": I1.thing, "impl2": I2.thing, "spec": Specs.thing, "parser": P, "combiner": comb, "inner1": inner1, "nested": I3.thing}
 
 
-OPS = [("add", t, s) for t in ("impl1", "impl2", "spec", "parser", "combiner") for s in ("a", "b")] + [("get", t, None) for t in ("impl1", "impl2", "spec")]
+OPS = [("add", t, s) for t in ("impl1", "impl2", "spec", "parser", "combiner") for s in ("a", "b")] + [("get", t, None) for t in ("impl1", "impl2", "spec", "inner1")]
 n1 = 0
 for k in range(1, K + 1):
     for seq in itertools.product(OPS, repeat=k):
         if seq[-1][0] != "get":
             continue
         w = world()
-        reg = dict((t, set()) for t in w)
+        reg = dict((t, set()) for t in w)        # nothing is registered directly on inner1 / nested here: they see what the spec and its dependents got
         for op, t, s in seq:
             if op == "add":
                 filters.add_filter(w[t], s)
@@ -62,7 +65,7 @@ for k in range(1, K + 1):
                 got = set(filters.get_filters(w[t]))
                 shared = reg["spec"] | reg["parser"] | reg["combiner"]
                 # every implementation also sees what was registered on its sibling? no: on itself, on the spec, or through dependents
-                want = shared | (reg[t] if t != "spec" else set())
+                want = shared | (reg.get(t, set()) if t != "spec" else set())
                 n1 += 1
                 if got != want:
                     fail(violation="filter set in force differs from the union registered so far", sequence=[(o, x, y) for o, x, y in seq], looked_up=t,
